@@ -994,6 +994,90 @@ fn legacy_cases(r: &mut Rng, n: u64, sum: &mut Summary, out: &mut impl Write) {
     }
 }
 
+/// a flush whose write callbacks are overlapped by mutations: the mutation lands after its bucket was serialized
+/// (inside the bucket or metadata write of flush #1).  Whatever flush #1 committed, the next quiet flush must
+/// persist the late mutation: reload(flush #2) == the in-memory index == the oracle.
+fn overlap_probes(rng: &mut Rng, n: u64, sum: &mut Summary) -> u64 {
+    let mut landed = 0u64;
+    for p in 0..n {
+        let mut r = rng.fork();
+        let allow_dup = p % 4 != 3;
+        let overload = *r.pick(&[64usize, 96, 200]);
+        let ix = Index::new("c10".to_string(), Some(BTreeConfig { bucket_overload_size: overload, allow_duplicates: allow_dup }));
+        let mut model = Model::new();
+        let mut hist: Vec<String> = Vec::new();
+        let mutate = |ix: &Index, model: &mut Model, hist: &mut Vec<String>, ins: bool, pk: u64, k: u64, now: u64| {
+            if ins {
+                if let Ok(true) = ix.insert(pk, k, now) { model.entry(k).or_default().insert(pk); }
+                hist.push(format!("insert({pk},{k})"));
+            } else {
+                if ix.remove(pk, k, now) { if let Some(s) = model.get_mut(&k) { s.remove(&pk); if s.is_empty() { model.remove(&k); } } }
+                hist.push(format!("remove({pk},{k})"));
+            }
+        };
+        let mut st = Store::new();
+        let base = 1 + r.below(12);
+        for i in 0..base {
+            let (pk, k) = if allow_dup { (r.below(10), r.below(6)) } else { (i, i) };
+            mutate(&ix, &mut model, &mut hist, true, pk, k, i);
+        }
+        if r.chance(1, 2) { let _ = flush_logged(&ix, &mut st, None); hist.push("flush".into()); }
+        // dirty something so that flush #1 writes at least one bucket
+        let (pk0, k0) = if allow_dup { (r.below(10), r.below(6)) } else { (100, 100) };
+        mutate(&ix, &mut model, &mut hist, true, pk0, k0, 50);
+        // the late mutations: at which write (0-based) each lands
+        let late: Vec<(usize, bool, u64, u64)> = (0..1 + r.below(2)).map(|j| {
+            let ins = r.chance(2, 3) || !allow_dup;
+            let (pk, k) = if allow_dup { (r.below(10), r.below(6)) } else { (200 + j, 200 + j) };
+            (r.below(3) as usize, ins, pk, k)
+        }).collect();
+        let log: RefCell<Vec<Step>> = RefCell::new(Vec::new());
+        let cell = RefCell::new((&mut model, &mut hist, 0u64));
+        let at_write = |n: usize| {
+            let mut g = cell.borrow_mut();
+            for (w, ins, pk, k) in late.iter() {
+                if *w == n {
+                    let (m, h, c) = &mut *g;
+                    h.push(format!("-- during write #{n} of flush #1:"));
+                    mutate(&ix, m, h, *ins, *pk, *k, 60);
+                    *c += 1;
+                }
+            }
+        };
+        let res = futures::executor::block_on(ix.flush_owned_with(
+            1_000,
+            |data: Vec<u8>| { let n = log.borrow().len(); log.borrow_mut().push(Step::Put(Path::Meta, data)); at_write(n); async move { Ok::<(), anda_db_btree::BoxError>(()) } },
+            |o: BucketObject, data: Vec<u8>| { let n = log.borrow().len(); log.borrow_mut().push(Step::Put(Path::Bucket(o.bucket_id, o.generation), data)); at_write(n); async move { Ok::<(), anda_db_btree::BoxError>(()) } },
+        ));
+        let (_, _, c) = cell.into_inner();
+        landed += c;
+        let mut log = log.into_inner();
+        if let Ok(outcome) = &res { for o in &outcome.obsolete { log.push(Step::Del(Path::Bucket(o.bucket_id, o.generation))); } }
+        for s in &log { apply_step(&mut st, s); }
+        hist.push("flush #1 (overlapped)".into());
+        // quiet flushes until nothing is pending (a second one must be a no-op)
+        let _ = flush_logged(&ix, &mut st, None);
+        let _ = flush_logged(&ix, &mut st, None);
+        hist.push("flush #2; reload".into());
+        sum.evaluations += 1;
+        if let Some(d) = diff_index(&ix, &model) {
+            fail(sum, "overlapped flush: in-memory index differs from the oracle", json!({"probe": p, "history": hist, "diff": d}));
+            continue;
+        }
+        match load_from(&st) {
+            Ok(Some(re)) => {
+                if let Some(d) = diff_index(&re, &model) {
+                    fail(sum, "round trip: a mutation that landed during an in-flight flush is lost (or a removed id resurrected) after the next flush and reload",
+                         json!({"probe": p, "overload": overload, "allow_dup": allow_dup, "history": hist, "diff": d}));
+                }
+            }
+            Ok(None) => fail(sum, "round trip: overlapped flush left no metadata", json!({"probe": p, "history": hist})),
+            Err(e) => fail(sum, "round trip: reload after overlapped flush failed", json!({"probe": p, "history": hist, "error": e})),
+        }
+    }
+    landed
+}
+
 fn main() {
     let args: Vec<String> = std::env::args().collect();
     let out_path = arg_value(&args, "--out").expect("--out");
@@ -1038,6 +1122,8 @@ fn main() {
         }
     }
     legacy_cases(&mut rng, legacy, &mut sum, &mut out);
+    let overlaps: u64 = arg_value(&args, "--overlaps").and_then(|s| s.parse().ok()).unwrap_or(120);
+    let overlap_landed = overlap_probes(&mut rng, overlaps, &mut sum);
     let t0 = std::time::Instant::now();
     let ss = if arg_value(&args, "--sched").as_deref() == Some("0") { None } else { Some(sched::main(&args, &mut out)) };
     let sched_json = match &ss {
@@ -1055,7 +1141,7 @@ fn main() {
         "op_histogram": sum.op_hist, "history_lengths": lens, "flushes": sum.flushes,
         "flushes_with_2plus_dirty_buckets": sum.flushes_multi_dirty, "crash_points": sum.crash_points,
         "stats_with_migration": sum.migrations_seen, "unique_rejections": sum.unique_errors,
-        "early_stopped_queries": sum.early_stops, "legacy_loads": sum.legacy_loads, "dirty_tracking_probes": probes, "schedule_explorer": sched_json,
+        "early_stopped_queries": sum.early_stops, "legacy_loads": sum.legacy_loads, "dirty_tracking_probes": probes, "overlapped_flush_probes": overlaps, "mutations_landed_during_flush": overlap_landed, "schedule_explorer": sched_json,
     });
     writeln!(out, "{}", summary).unwrap();
 }
